@@ -183,6 +183,27 @@ def s2_premise(fn, tr, a, b):
                     push_blocks.add(bb)
         if push_blocks and not cycle_avoiding(body, header, blocks, push_blocks):
             return "loop over %s pushes to %s on every iteration" % (src_c, buf)
+    # internal iteration: src.iter().try_for_each(|x| { …; buf.push(..); Ok(()) })
+    prog = getattr(fn, "_prog", None)
+    for bb, t in body.calls():
+        if not is_callee(t, r"Iterator::try_for_each$", r"Iterator::for_each$"):
+            continue
+        it = tr.operand(t["args"][0])
+        if not any(x[0] in ("place", "arg", "upvar") and canon(strip(x)) == src_c for x in walk(it)):
+            continue
+        if re.search(r"\b(rev|skip|take|filter|step_by|chain|zip)\(", canon(it)):
+            continue
+        cl = strip(tr.operand(t["args"][1]))
+        if not (cl[0] == "agg" and cl[1] == "closure") or prog is None or cl[2] not in prog.fns:
+            continue
+        cf = prog.fns[cl[2]]
+        ctr = Tracer(cf.body)
+        last = buf.rsplit(".", 1)[-1]
+        pushes = {b2 for b2, t2 in cf.body.calls() if is_callee(t2, r"Vec::<T, A>::push$") and canon(strip(ctr.operand(t2["args"][0]))).rsplit(".", 1)[-1] == last}
+        from .e2_errflow import _failure_blocks
+        fails = _failure_blocks(cf.body)
+        if pushes and not (cf.body.reach_from([0], avoid=pushes | fails) & set(cf.body.return_blocks())):
+            return "%s.iter().try_for_each pushes to %s for every element" % (src_c, buf)
     return None
 
 
@@ -771,9 +792,11 @@ class Ctx:
         if ".start" in adv[0]:
             return None
         # guard: i < len dominates
+        from ..lib.cfgq import normalized
         for g in dominating_guards(body, tr, site.bb):
-            c = strip(g.cond)
-            if c[0] == "binop" and c[1] == "Lt" and g.value is True and "String::len" in canon(c[3]):
+            nc, nv = normalized(g)
+            c = strip(nc)
+            if c[0] == "binop" and c[1] == "Lt" and nv is True and "String::len" in canon(c[3]):
                 return "i starts at 0, advances only by group-0 end of the selected match; guarded by i < len"
         return None
 
@@ -840,6 +863,9 @@ def run_e1a(prog, rep, known_rules=None, fn_filter=None):
     sites = enumerate_sites(prog)
     if fn_filter is not None:
         sites = [s for s in sites if fn_filter(s.fn)]
+    # a closure whose body was spliced into its parent (try_for_each desugaring) is audited there, in its context
+    spliced = {h for f in prog.fns.values() for h in (f.inlined or []) if h in prog.fns and prog.fns[h].kind == "closure"}
+    sites = [s for s in sites if s.fn.id not in spliced]
     per_rule = {}
     for s in sites:
         res = None
